@@ -261,6 +261,24 @@ func fieldShift(v ssa.Value, msgParam string) (string, int64, bool) {
 	return relField(p), sh, true
 }
 
+// isZeroStruct: the zero value of a struct type (constant, or a composite literal without elements).
+func isZeroStruct(v ssa.Value) bool {
+	if c, ok := v.(*ssa.Const); ok {
+		return c.Value == nil
+	}
+	if u, ok := v.(*ssa.UnOp); ok && u.Op == token.MUL {
+		if a, ok := u.X.(*ssa.Alloc); ok {
+			for _, ref := range Referrers(a) {
+				if ref != ssa.Instruction(u) {
+					return false
+				}
+			}
+			return true
+		}
+	}
+	return false
+}
+
 // ExtractDecoder builds the table of a decoder: stores msg.F = OR of (conv(b[k]) << s).
 func ExtractDecoder(fn *ssa.Function, msgParam string) *CodecTable {
 	t := &CodecTable{ZeroFields: map[string]string{}}
@@ -277,6 +295,13 @@ func ExtractDecoder(fn *ssa.Function, msgParam string) *CodecTable {
 		cond := blockCond(st.Block())
 		if z, ok := ConstInt(st.Val); ok && z == 0 {
 			t.ZeroFields[fld] = cond
+			return
+		}
+		// a nested struct cleared as a whole: msg.S = S{}
+		if _, isStruct := st.Val.Type().Underlying().(*types.Struct); isStruct && isZeroStruct(st.Val) {
+			for _, lf := range LeafFields(st.Val.Type(), fld) {
+				t.ZeroFields[lf] = cond
+			}
 			return
 		}
 		// array literal: value is a load of a local array alloc filled element-wise
